@@ -6,6 +6,7 @@ import NcVerif.Driver.CapsD
 import NcVerif.Driver.FramingD
 import NcVerif.Driver.SessionD
 import NcVerif.Driver.RpcErrorD
+import NcVerif.Driver.LockD
 open NcVerif.Driver
 
 structure DState where
@@ -16,6 +17,7 @@ def stepLine (st : DState) (line : String) : DState × String :=
   | "caps" :: rest => (st, capsCmd rest)
   | "fr" :: rest => (st, framingCmd rest)
   | "re" :: rest => (st, rpcErrorCmd rest)
+  | "lk" :: rest => (st, lockCmd rest)
   | "ss" :: rest => let (s', out) := sessionCmd st.sess rest; ({ st with sess := s' }, out)
   | _ => (st, "bad-model")
 
